@@ -250,6 +250,12 @@ pub fn job_set() -> Vec<Job> {
         j.files[0].1 += &format!("deepok = {}1{}\n", "(".repeat(40), ")".repeat(40));
         v.push(j);
     }
+    // a bank definition with several fields nobody knows: equally-ranked diagnostics from one directive
+    {
+        let mut j = job("bankdef-unknown-fields", "bankdef-unknown-fields", "failure", 0, 5, 0, 0, 0, &[]);
+        j.files[0].1 += "#bankdef extra\n{\n    #addr 0x9000\n    #mirror 2\n    #readonly\n    #shadow 1\n    #zz 3\n    #yy\n}\n";
+        v.push(j);
+    }
     // several root files on one command line: they are assembled in the order given
     {
         let mut j = job("several-roots", "several-roots", "success", 0, 5, 0, 0, 0, &[]);
